@@ -863,7 +863,7 @@ func record(in, out string) {
 	rng := ev.Rng()
 	w := ev.Create(out)
 	cases := load(in)
-	per := 2
+	per := 3
 	if ev.Thorough() {
 		per = 6
 	}
